@@ -44,15 +44,17 @@ def reference(dims: list[str], cls_ok: bool, shape: tuple) -> dict:
     markers = [i for i, d in enumerate(dims) if d in ("...", "*b")]
     n = len(dims)
     r = len(shape)
+    rank_err = None
     if markers:
         if r < n - 1:
-            return {"v": "reject", "kind": "NDims", "expected": n - 1, "actual": r}
+            rank_err = {"v": "reject", "kind": "NDims", "expected": n - 1, "actual": r}
     elif r != n:
-        return {"v": "reject", "kind": "NDims", "expected": n, "actual": r}
-    if not cls_ok:
-        return {"v": "reject", "kind": "Dtype"}
+        rank_err = {"v": "reject", "kind": "NDims", "expected": n, "actual": r}
+    if rank_err is not None:
+        # the rank is wrong; when the dtype is wrong as well either error describes a mismatch (their order is the code's business)
+        return rank_err if cls_ok else {"v": "reject", "any_of": [rank_err, {"v": "reject", "kind": "Dtype"}], "several": True}
     m = markers[0] if markers else None
-    bad = []
+    bad = [] if cls_ok else [{"v": "reject", "kind": "Dtype"}]
     for i, d in enumerate(dims):
         if d not in LITS:
             continue
@@ -63,7 +65,7 @@ def reference(dims: list[str], cls_ok: bool, shape: tuple) -> dict:
         if shape[pos] != LITS[d]:
             bad.append({"v": "reject", "kind": "Shape", "idx": pos, "expected": LITS[d], "actual": shape[pos]})
     if bad:
-        return {"v": "reject", "any_of": bad}
+        return {"v": "reject", "any_of": bad, "several": len(bad) > 1}
     return {"v": "accept"}
 
 
@@ -156,8 +158,8 @@ def run(tier: str, seed: int, rep: Report, model: Model) -> dict:
         if ref["v"] == "accept":
             ok = res["v"] == "accept"
         elif "any_of" in ref:
-            ok = any(res.get("v") == "reject" and res.get("kind") == "Shape" and res.get("name") == "x" and
-                     all(res.get(k) == b[k] for k in ("idx", "expected", "actual")) for b in ref["any_of"])
+            ok = any(res.get("v") == "reject" and res.get("kind") == b["kind"] and res.get("name") == "x" and
+                     all(res.get(k) == b[k] for k in b if k not in ("v", "kind")) for b in ref["any_of"])
         else:
             ok = res.get("v") == "reject" and res.get("kind") == ref["kind"] and res.get("name") == "x" and all(res.get(k) == ref[k] for k in ref if k not in ("v", "kind"))
         if not ok:
@@ -165,6 +167,10 @@ def run(tier: str, seed: int, rep: Report, model: Model) -> dict:
             if rep.many_violations():
                 break
             continue
-        if {k: v for k, v in res.items()} != mo:
+        if ref.get("several"):
+            # several aspects are wrong at once: which one is reported first is not part of the property; compare the verdict only
+            if res.get("v") != mo.get("v"):
+                rep.disagreement({"what": "model and implementation differ in verdict", **case})
+        elif {k: v for k, v in res.items()} != mo:
             rep.disagreement({"what": "model and implementation report differently", **case})
     return {"dims_alphabet": DIMS, "max_dims": nd, "max_rank": maxrank}
